@@ -191,6 +191,37 @@ def run(rep: common.Report, tier: str, seed: int, replay=None) -> int:
                                 lambda out: solve(dh, out, terminal_currents=balanced), td, f"a{n}"); n += 1
             except Exception as e:  # noqa: BLE001
                 rep.violation(f"a well-posed problem was rejected: {type(e).__name__}: {e}"[:200], {"device": di, "form": "history"})
+        # environment form: the application has configured logging at DEBUG level (root and "solver" loggers, its own handler);
+        # what is rejected must not depend on what is logged
+        import io
+        import logging
+        lg_root, lg_solver = logging.getLogger(), logging.getLogger("solver")
+        old_levels = (lg_root.level, lg_solver.level)
+        hdl = logging.StreamHandler(io.StringIO())
+        lg_root.addHandler(hdl)
+        lg_root.setLevel(logging.DEBUG)
+        lg_solver.setLevel(logging.DEBUG)
+        try:
+            dev = devs[0]
+            names = [t.name for t in dev.terminals]
+            cur = {nm: 1.0 for nm in names[:-1]}
+            cur[names[-1]] = -(len(names) - 1) * 1.01
+            expect_rejected(rep, "unbalanced currents", "DEBUG logging enabled, rel=1e-2",
+                            lambda out, cur=cur: solve(dev, out, terminal_currents=cur), td, f"a{n}"); n += 1
+
+            def curf_dbg(t):
+                d = {nm: 1.0 + t for nm in names[:-1]}
+                d[names[-1]] = -(len(names) - 1) * (1.0 + t) * 1.5
+                return d
+            expect_rejected(rep, "unbalanced time-dependent currents (all times)", "DEBUG logging enabled",
+                            lambda out: solve(dev, out, terminal_currents=curf_dbg), td, f"a{n}"); n += 1
+            expect_rejected(rep, "epsilon > 1", "DEBUG logging enabled", lambda out: solve(dev, out, disorder_epsilon=1.5), td, f"a{n}"); n += 1
+            expect_rejected(rep, "inconsistent options", "DEBUG logging enabled, dt_init > dt_max",
+                            lambda out: solve(dev, out, opt_over=dict(dt_init=1e-2, dt_max=1e-3)), td, f"a{n}"); n += 1
+        finally:
+            lg_root.removeHandler(hdl)
+            lg_root.setLevel(old_levels[0])
+            lg_solver.setLevel(old_levels[1])
         # 8. invalid polygons and device definitions (rejected at construction: nothing can be written)
         def bowtie():
             tdgl.Polygon("p", points=np.array([[0, 0], [1, 1], [1, 0], [0, 1]]))
